@@ -35,7 +35,7 @@ TITLE = "Incompatible schema versions are refused, and migration preserves every
 LEAN_MODULE = "Signac.Properties.C20"
 DRIVER = "drv_mig"
 DESIGN_REF = "DESIGN.md §4 C20"
-RULE = ("37 spellings of schema_version (integers with sign / zeros / underscores, decimals, pre-release tags, words) x '
+RULE = ("37 spellings of schema_version (integers with sign / zeros / underscores, decimals, pre-release tags, words) x "
         "layout, each through Project / get_project / init_project / apply_migrations; random ASCII strings against "
         "Python's int(); a legacy project 1-2 levels below a current / legacy / newer project; and the "
         "product of layout {signac.rc, .signac/config} x schema_version {absent,0,1,2,3,10} x 9 project names "
